@@ -246,4 +246,96 @@ def make : Spec α → Except Err (Storage α)
 
 end
 
+/-! ### vocabulary of the property theorems -/
+
+def Op.isAssign {α : Type} : Op α → Bool
+  | .setInt _ | .setFloat _ | .setPairInt _ _ | .setPairFloat _ _ | .setString _ | .setEnum _ => true
+  | _ => false
+
+/-- the typed read whose type matches the stored alternative
+    (`value<int64_t>`, `value<scalar_t>`, `value_pair<…>`, `value<tenum>`, `value<string_t>`) -/
+def Storage.readOp {α : Type} : Storage α → Op α
+  | .irange _ => .readInt
+  | .frange _ => .readFloat
+  | .iprange _ => .readPairInt
+  | .fprange _ => .readPairFloat
+  | .enum _ => .readEnum
+  | .str _ => .readString
+  | .mono => .readString
+
+/-- may this typed read be applied to the stored alternative? (`value<T>()` converts between the integer and
+    the scalar range, `value_pair<T>()` between the two pair ranges; everything else is a type mismatch) -/
+def Op.readable {α : Type} : Op α → Storage α → Bool
+  | .readInt, .irange _ | .readInt, .frange _ | .readFloat, .irange _ | .readFloat, .frange _ => true
+  | .readPairInt, .iprange _ | .readPairInt, .fprange _ | .readPairFloat, .iprange _ | .readPairFloat, .fprange _ => true
+  | .readString, .str _ => true
+  | .readEnum, .enum _ => true
+  | .writeRead, _ => true
+  | _, _ => false
+
+/-- may this kind of assignment be applied to the stored alternative? -/
+def Op.assignable {α : Type} : Op α → Storage α → Bool
+  | .setInt _, .irange _ | .setInt _, .frange _ | .setFloat _, .irange _ | .setFloat _, .frange _ => true
+  | .setPairInt _ _, .iprange _ | .setPairInt _ _, .fprange _ => true
+  | .setPairFloat _ _, .iprange _ | .setPairFloat _ _, .fprange _ => true
+  | .setString _, .mono => false
+  | .setString _, _ => true
+  | .setEnum _, .enum _ => true
+  | _, _ => false
+
+def Except.toOption' {ε β : Type} : Except ε β → Option β
+  | .ok v => some v
+  | .error _ => none
+
+section
+variable {α : Type} [FOps α]
+
+/-- the value an assignment asks for, converted to the kind of the stored alternative (integers ↔ scalars by
+    `static_cast`, strings by `std::stoll` / `std::stod`), in the shape the matching typed read returns it;
+    `none` when the assignment does not apply to the alternative or the text is not a number -/
+def requested (s : Storage α) : Op α → Option (Res α)
+  | .setInt v =>
+    match s with
+    | .irange _ => some (.int v)
+    | .frange _ => some (.float (FOps.ofI64 v))
+    | _ => none
+  | .setFloat v =>
+    match s with
+    | .irange _ => some (.int (FOps.toI64 v))
+    | .frange _ => some (.float v)
+    | _ => none
+  | .setPairInt v1 v2 =>
+    match s with
+    | .iprange _ => some (.pairInt v1 v2)
+    | .fprange _ => some (.pairFloat (FOps.ofI64 v1) (FOps.ofI64 v2))
+    | _ => none
+  | .setPairFloat v1 v2 =>
+    match s with
+    | .iprange _ => some (.pairInt (FOps.toI64 v1) (FOps.toI64 v2))
+    | .fprange _ => some (.pairFloat v1 v2)
+    | _ => none
+  | .setString v =>
+    match s with
+    | .enum _ => some (.enumv v)
+    | .str _ => some (.string v)
+    | .irange _ => (Except.toOption' (stoll v)).map .int
+    | .frange _ => (Except.toOption' (FOps.stod v : Except Err α)).map .float
+    | .iprange _ =>
+      match Except.toOption' (stoll (splitPair v).1), Except.toOption' (stoll (splitPair v).2) with
+      | some x1, some x2 => some (.pairInt x1 x2)
+      | _, _ => none
+    | .fprange _ =>
+      match Except.toOption' (FOps.stod (splitPair v).1 : Except Err α),
+            Except.toOption' (FOps.stod (splitPair v).2 : Except Err α) with
+      | some x1, some x2 => some (.pairFloat x1 x2)
+      | _, _ => none
+    | .mono => none
+  | .setEnum name =>
+    match s with
+    | .enum _ => some (.enumv name)
+    | _ => none
+  | _ => none
+
+end
+
 end NanoVerif.Param
